@@ -86,7 +86,10 @@ func ParseCFF2(src []byte) (*CFF2, error) {
 		if err != nil {
 			return nil, fmt.Errorf("reading font dict: %s", err)
 		}
-		end := int(fd.privateDictOffset + fd.privateDictSize)
+		if fd.privateDictOffset < 0 || fd.privateDictSize < 0 {
+			return nil, fmt.Errorf("reading private dict: invalid offset %d or size %d", fd.privateDictOffset, fd.privateDictSize)
+		}
+		end := int(fd.privateDictOffset) + int(fd.privateDictSize)
 		if L := len(src); L < end {
 			return nil, fmt.Errorf("reading private dict: EOF: expected length: %d, got %d", end, L)
 		}
